@@ -48,13 +48,19 @@ type c01Gen struct {
 	nvar  int
 	sites []string
 	// names in scope that hold a value recipe's printed text (for loop vars / params)
-	special bool
+	special   bool
+	plainOnly bool // no values that only make sense printed directly (Renderer)
 }
 
 func (g *c01Gen) n(lo, hi int, l string) int { return rapid.IntRange(lo, hi).Draw(g.t, l) }
 
 func (g *c01Gen) valueRecipe() mj.Recipe {
-	switch g.n(0, 15, "valkind") {
+	switch g.n(0, 16, "valkind") {
+	case 16:
+		if g.plainOnly {
+			return mj.RStr(genSpecialString(g.t, "sval"))
+		}
+		return mj.Recipe{T: "renderer-write", S: genSpecialString(g.t, "rend")}
 	case 14:
 		return mj.Recipe{T: "level", I: int64(g.n(0, 9, "level"))}
 	case 15:
@@ -124,6 +130,9 @@ func (g *c01Gen) renderSite(scopeNames []string) *mj.Node {
 	if !isString && (stage == "upper" || stage == "html" || stage == "upper|raw" || stage == "lower|safeHtml") {
 		stage = ""
 	}
+	if r.T == "renderer-write" {
+		stage = "" // rendered by its own method; not a value a pipeline can transform
+	}
 	g.sites = append(g.sites, src+":"+r.T+":"+stage)
 	switch stage {
 	case "":
@@ -163,7 +172,9 @@ func (g *c01Gen) leaf(scopeNames []string) []*mj.Node {
 			def := &mj.Node{K: "block", Name: name, Params: []mj.Param{{Name: pn, E: mj.Str(genSpecialString(g.t, "pdef"))}}, Body: []*mj.Node{mj.Text("(:"), g.renderSite([]string{pn}), mj.Text(":)")}}
 			out = append(out, def)
 			if g.n(0, 1, "alsoYield") == 0 {
+				g.plainOnly = true // the block may send its parameter through a pipeline
 				arg, _, _ := g.valueExpr(nil)
+				g.plainOnly = false
 				out = append(out, &mj.Node{K: "yield", Name: name, Params: []mj.Param{{Name: pn, E: arg}}})
 			}
 		default:
@@ -323,7 +334,7 @@ func judgeC01(c c01Case) (v core.Verdict) {
 		v.Label("after-an-execution-into-a-broken-destination")
 	}
 	for _, r := range c.Prog.Vars {
-		if strings.ContainsAny(r.S, "<>&'\"") || r.T == "level" || r.T == "code" {
+		if strings.ContainsAny(r.S, "<>&'\"") || r.T == "level" || r.T == "code" || r.T == "renderer-write" {
 			special = true
 		}
 		if r.T == "longstring" {
@@ -364,7 +375,7 @@ func clipLong(s string) string {
 
 func TestC01(t *testing.T) {
 	core.Run(t, "C01",
-		"random nesting path (depth 0-5 of if/else/range/block/yield-with-content/default content/include/try/catch/exec, optionally under an extends layout) with 1-3 render sites per level; values (strings rich in < > & ' \" NUL multi-byte and pre-escaped entities, 4096-boundary long strings, ints, floats, bools, []byte, Stringer, error, slices, pointers) from literal / Execute variable / global / context sources; pipelines none/upper/html/raw/unsafe/safeHtml/safeJs/custom SafeWriter/prefix raw/chains; escaper default/nil/custom (byte-wise, non-idempotent); 1 case in 20 is a dump() / dump(n) / dump(name) action checked metamorphically against a Set without escaper; one case in four after an Execute of the same template into a destination that fails after 1-120 bytes; oracle = MiniJet reference interpreter, exact bytes; non-trivial = a value with a special byte and nesting depth >= 1",
+		"random nesting path (depth 0-5 of if/else/range/block/yield-with-content/default content/include/try/catch/exec, optionally under an extends layout) with 1-3 render sites per level; values (strings rich in < > & ' \" NUL multi-byte and pre-escaped entities, 4096-boundary long strings, ints, floats, bools, []byte, Stringer, error, slices, pointers, a Renderer that writes through Runtime.Write) from literal / Execute variable / global / context sources; pipelines none/upper/html/raw/unsafe/safeHtml/safeJs/custom SafeWriter/prefix raw/chains; escaper default/nil/custom (byte-wise, non-idempotent); 1 case in 20 is a dump() / dump(n) / dump(name) action checked metamorphically against a Set without escaper; one case in four after an Execute of the same template into a destination that fails after 1-120 bytes; oracle = MiniJet reference interpreter, exact bytes; non-trivial = a value with a special byte and nesting depth >= 1",
 		genC01, judgeC01)
 }
 
